@@ -378,6 +378,11 @@ def plan(case):
     other object then shows is not something the property speaks about)."""
     tables = [{"data": 0, "view": False, "dead": False}]
     out = []
+
+    def aliases(t):
+        """live table objects that share the column lists of table t: (id, is a copy-sibling i.e. not a view)"""
+        return [(i, not x["view"] and not tables[t]["view"]) for i, x in enumerate(tables)
+                if i != t and x["data"] == tables[t]["data"] and not x["dead"]]
     nd = 1
     for op in case["ops"]:
         k = op["op"]
@@ -396,11 +401,13 @@ def plan(case):
         if k == "insert":
             payload = op.get("rows") if op["shape"] != "cols" else op.get("cols")
             if payload:
+                out[-1]["aliases"] = aliases(t)       # looked at once, right after the mutation, then left alone
                 for i, x in enumerate(tables):
                     if i != t and x["data"] == tables[t]["data"]:
                         x["dead"] = True
         elif k == "index":
             if op["cols"]:
+                out[-1]["aliases"] = aliases(t)
                 for i, x in enumerate(tables):
                     if i != t and x["data"] == tables[t]["data"]:
                         x["dead"] = True
@@ -453,6 +460,8 @@ class Runner:
         self.model_ops = []
         self.nontrivial = False
         self.naive = {}      # op number -> rows the plain evaluation keeps (exact cells), or None when it raises
+        self.lin_cur, self.lin_stop, self.lin_obs = 0, False, None   # the linear history of the case (see Driver.linearOf)
+        self.mop_case = []   # model op number -> number of the case op it belongs to (None for the peeks added by the runner)
         self.suspect = {}    # table id -> signature of the failed operation that produced it (or an ancestor of it)
         self.cur_t = None
         self.last_sig = None
@@ -475,6 +484,12 @@ class Runner:
         self.obs.append(observe(t0))
         for n, (op, p) in enumerate(zip(case["ops"], pl)):
             k = op["op"]
+            if not self.lin_stop and not p["skip"] and k in ("insert", "index") and op["t"] != self.lin_cur:
+                # the linear history ends here: another object is mutated; remember what its table shows now
+                self.lin_stop = True
+                self.lin_obs = observe(tables[self.lin_cur]) if tables[self.lin_cur] is not None else None
+            moves = not self.lin_stop and not p["skip"] and k in ("where", "copy") and op["t"] == self.lin_cur
+            self.mop_case.append(n)
             if p["skip"]:
                 self.obs.append({"skip": True})
                 self.model_ops.append({"op": "skip", "creates": p["creates"]})
@@ -489,6 +504,8 @@ class Runner:
                 if p["creates"]:
                     tables.append(None)
                 self.tags.append("dead:" + k)
+                if moves:
+                    self.lin_cur = len(tables) - 1
                 continue
             try:
                 cols, rows = snap(t)
@@ -499,16 +516,48 @@ class Runner:
                 self.model_ops.append(self.model_op(op, list(t.columns)))
                 if p["creates"]:
                     tables.append(None)
+                if moves:
+                    self.lin_cur = len(tables) - 1
                 continue
             self.model_ops.append(self.model_op(op, cols))
             self.cur_t, self.last_sig = op["t"], None
             ntab = len(tables)
+            before = {}
+            for j, sibling in p.get("aliases", []):
+                if tables[j] is not None:
+                    try:
+                        before[j] = snap(tables[j])
+                    except Exception:  # noqa
+                        pass
             getattr(self, "do_" + k)(n, op, t, tables, cols, rows, idx)
+            if tables[op["t"]] is not None:
+                # the mutation went through: look once at every other object that shows the same lists
+                for j, sibling in p.get("aliases", []):
+                    if tables[j] is None or j not in before:
+                        continue
+                    self.obs.append(observe(tables[j]))
+                    self.model_ops.append({"op": "peek", "t": j})
+                    self.mop_case.append(None)
+                    self.tags.append("alias:peek-" + ("copy" if sibling else "view"))
+                    if sibling:
+                        try:
+                            after = snap(tables[j])
+                        except Exception as e:  # noqa
+                            after = ("raised", repr(e))
+                        if after != before[j]:
+                            self.cur_t = None
+                            self.fail("op #%d %s on table %d changed what table %d shows (one is a copy() of the other): before %s %s, after %s"
+                                      % (n, k, op["t"], j, before[j][0], before[j][1][:12], after[1][:12] if isinstance(after[1], list) else after),
+                                      "copy-shares-storage:%s-through-one-object-changes-the-other" % k)
+            if moves:
+                self.lin_cur = len(tables) - 1
             if len(tables) > ntab:
                 if op["t"] in self.suspect:
                     self.suspect[ntab] = self.suspect[op["t"]]
                 elif self.last_sig is not None:
                     self.suspect[ntab] = self.last_sig[len("downstream:"):] if self.last_sig.startswith("downstream:") else self.last_sig
+        if not self.lin_stop:
+            self.lin_obs = observe(tables[self.lin_cur]) if tables[self.lin_cur] is not None else None
         return self
 
     # ---- conversions for the model
@@ -1269,9 +1318,10 @@ def plain_snippet(case):
                 arg = "[%s]" % ", ".join("{%s}" % ", ".join("%r: %s" % (c, lit(v)) for c, v in d) for d in op["rows"])
             else:
                 arg = "{%s}" % ", ".join("%r: [%s]" % (c, ", ".join(lit(x) for x in v)) for c, v in op["cols"])
-            out.append("%s.insert(%s); print(list(%s))" % (t, arg, t))
+            out.append("%s.insert(%s); print(list(%s))" % (t, arg, t) + "".join("; print('t%d now shows', list(t%d))" % (j, j) for j, sib in p.get("aliases", []) if sib))
         elif k == "index":
-            out.append("%s.index(%s); print(%s.indexes, list(%s))" % (t, ", ".join(repr(c) for c in op["cols"]), t, t))
+            out.append("%s.index(%s); print(%s.indexes, list(%s))" % (t, ", ".join(repr(c) for c in op["cols"]), t, t)
+                       + "".join("; print('t%d now shows', t%d.indexes, list(t%d))" % (j, j, j) for j, sib in p.get("aliases", []) if sib))
         elif k == "copy":
             out.append("t%d = %s.copy(); print(list(t%d))" % (nt, t, nt))
             nt += 1
@@ -1332,13 +1382,18 @@ class C17(Property):
             "index (0-3 columns, repeats, unknown names), where (positional comparison, {op:value}, 1-3 keywords, callables, row predicates, match, "
             "probes absent / duplicated / out of range / of another type) on tables and on where-results, groupby, copy; "
             "non-trivial = some where selects a proper non-empty subset or runs on the bisect path of a non-empty table, an index orders >= 2 rows, "
-            "or a groupby yields >= 2 groups; distinct by canonical JSON of the case")
+            "or a groupby yields >= 2 groups; distinct by canonical JSON of the case. 10 % of the cases start from a table without columns whose first insert "
+            "brings several columns; aliases (copies, views) are looked at once after every mutation; the linear history of every case is also run through "
+            "runL / runLS / WFL (ops_refine) and compared with the code")
     trusted_base = [
         "Python's sorted() is modelled as 'TypeError iff two non-Missing members are incomparable, else the stable arrangement' (checked exhaustively "
         "against CPython for lists up to 5 over the value kinds); bisect_left/right as the textbook loop (same probes as CPython's C code)",
         "re.search is modelled for metacharacter-free patterns only (substring test; digit-boundary test for numeric patterns)",
         "float cells are dyadic rationals with few digits, so repr(float) is their exact decimal expansion",
-        "operations on a table object whose column lists were mutated through another object (copy()/where() share storage) are not observed",
+        "table objects sharing storage (copy()/where()): the model gives every object of a run the mutated dict (`share`); each alias is looked at once, "
+        "right after the mutation (rows/columns/indexes, (A)); what an alias does afterwards (its cached _lohis) is not modelled and not observed",
+        "ops_refine is about linear histories (one object at a time: where/copy continue with the object they create); the harness extracts the linear "
+        "history of every case (Driver.linearOf, mirrored in Runner) and compares code, runL and the specification machine runLS on it",
     ]
     assumptions = [
         "row_pred and keyword arguments are not combined in one call (the code ignores the keywords; the documentation does not say what is meant)",
@@ -1353,6 +1408,12 @@ class C17(Property):
                               "the permutation holds up to == in index columns (1 and 1.0 may swap inside a group)",
         "groupby_partition": "needs rows in index order (Indexed), i.e. not after insert-after-index (P13)",
         "where_of_where": "as where_eq_spec_partial, with the sortedness part discharged by index_establishes_order / the theorem itself",
+        "index_stable": "under indexWF (as index_spec_partial)",
+        "index_eq_spec": "under indexWF; equality with the stable lexicographic sort holds up to == (Cell.key) because index exchanges 1 and 1.0 between rows that agree on an earlier index column",
+        "insert_eq_spec": "under insertWF: table owns its lists, rows as long as the distinct columns, equally long value lists, dict rows not all key-less without the repair",
+        "ops_refine": "linear histories only (several live objects sharing storage are outside: copy_shares_storage_counterexample); every step needs its decidable side condition (WFL); equality up to ==; groupby and match are not operations of the machine",
+        "where_match_eq_spec": "needs a homogeneous column (all str or all numbers) and a literal pattern: forced, see where_match_missing_counterexample / where_match_first_cell_counterexample",
+        "copy_independent": "only for where/groupby/copy/listing; insert/index through one object change the others (recorded findings C17-F19/F20)",
     }
 
     def generate(self, rng, tier):
@@ -1499,26 +1560,59 @@ class C17(Property):
                 minit = {"kind": "coldict_cols", "data": [[cid(c), v] for c, v in init["data"]], "columns": [cid(c) for c in init["columns"]]}
             ans = driver.ask({"cfg": run.cfg, "init": minit, "ops": run.model_ops})
             model = ans["model"]
-            labels = ["init"] + [op["op"] for op in case["ops"]]
+            labels = ["init"] + [op["op"] for op in run.model_ops]
             for k, (o, m) in enumerate(zip(run.obs, model)):
                 if o != m:
-                    what = "after op #%d (%s %s): implementation %s, model %s" % (k - 1, labels[k], json.dumps(case["ops"][k - 1])[:300] if k else "", json.dumps(o)[:400], json.dumps(m)[:400])
+                    what = "after model op #%d (%s %s): implementation %s, model %s" % (k - 1, labels[k], json.dumps(run.model_ops[k - 1])[:300] if k else "", json.dumps(o)[:400], json.dumps(m)[:400])
                     fails.append(F("A", what, "A:" + labels[k]))
                     break
             if len(model) != len(run.obs):
                 fails.append(F("A", "model answered %d observations for %d" % (len(model), len(run.obs)), "A:length"))
+            # ops_refine at run time: for the linear history of the case (operations on the table the history is "at"),
+            # when every side condition holds (WFL) the code's table, the model's and the specification machine's agree up to ==
+            lin = ans.get("linear")
+            if lin:
+                tags.append("L:wfl-" + ("holds" if lin["wfl"] else "fails") + (":n>=3" if lin["n"] >= 3 else ""))
+                if lin["wfl"]:
+                    def keyrows(o):
+                        return [[(["q", c[1], 1] if c[0] == "i" else ["q", c[1], c[2]] if c[0] == "f" else c) for c in r] for r in o["rows"]]
+
+                    def same(x, y):
+                        return "rows" in x and "rows" in y and x["columns"] == y["columns"] and x["indexes"] == y["indexes"] and keyrows(x) == keyrows(y)
+                    if not same(lin["model"], lin["spec"]):
+                        fails.append(F("C", "WFL holds but runL gives %s and runLS %s" % (json.dumps(lin["model"])[:300], json.dumps(lin["spec"])[:300]), "C:ops_refine"))
+                    elif run.lin_obs is not None and lin["cur"] == run.lin_cur and not same(run.lin_obs, lin["spec"]):
+                        fails.append(F("B", "a history of %d operations that meets every side condition (WFL) ends with the table %s; the specification machine (runLS: append / stable sort / plain filter) gives %s"
+                                       % (lin["n"], json.dumps(run.lin_obs)[:400], json.dumps(lin["spec"])[:400]), "history-differs-from-specification-machine"))
+                    elif run.lin_obs is not None and lin["cur"] == run.lin_cur:
+                        tags.append("L:checked-against-code")
             # (C) the theorem at run time: where the hypotheses of where_eq_spec_partial hold and the plain evaluation is defined,
             # the model's result is the specification's
-            for k, sp in enumerate(ans.get("spec", [])):
+            for mk_, sp in enumerate(ans.get("spec", [])):
                 if not sp:
+                    continue
+                k = run.mop_case[mk_] if mk_ < len(run.mop_case) else None
+                if k is None:
+                    continue
+                if "ihyp" in sp:
+                    tags.append("C:insert-hyp-" + ("holds" if sp["ihyp"] else "fails"))
+                    m = model[mk_ + 1]
+                    if sp["ihyp"] and (m.get("rows") != sp["rows"] or m.get("columns") != sp["columns"]):
+                        fails.append(F("C", "op #%d: insertWF holds but the model's table is %s and insertS gives %s %s" % (k, json.dumps(m)[:300], sp["columns"], json.dumps(sp["rows"])[:300]), "C:insert_eq_spec"))
                     continue
                 if "perm" in sp:
                     tags.append("C:index-hyp-" + ("holds" if sp["hyp"] else "fails"))
-                    if sp["hyp"] and not (sp["perm"] and sp["sorted"]):
-                        fails.append(F("C", "op #%d: hypotheses of index_spec_partial hold but the model's rows are %s" % (k, "not a rearrangement" if not sp["perm"] else "not in index order"), "C:index_spec"))
+                    if sp["hyp"] and not (sp["perm"] and sp["sorted"] and sp.get("stablesort", True)):
+                        fails.append(F("C", "op #%d: hypotheses of index_spec_partial / index_eq_spec hold but the model's rows are %s"
+                                       % (k, "not a rearrangement" if not sp["perm"] else "not in index order" if not sp["sorted"] else "not the stable lexicographic sort (indexS)"), "C:index_spec"))
                     continue
                 tags.append("C:where-hyp-" + ("holds" if sp["hyp"] else "fails"))
-                m = model[k + 1]
+                m = model[mk_ + 1]
+                if sp.get("match") is not None and k in run.naive and run.naive[k] is not None:
+                    # `matchCell` (Lean) and the harness' cell-by-cell reading of match must keep the same rows
+                    tags.append("C:match-spec-compared")
+                    if run.naive[k] != sp["match"]:
+                        fails.append(F("C", "op #%d: the harness' reading of match keeps %s, matchCell keeps %s" % (k, json.dumps(run.naive[k])[:300], json.dumps(sp["match"])[:300]), "C:naive-vs-matchCell"))
                 # the Lean specification and the harness' plain evaluation are two readings of the same sentence: they must agree
                 if not any(f["kind"] == "A" for f in fails) and k in run.naive and "pred" in case["ops"][k] and not case["ops"][k].get("pred"):
                     nv = run.naive[k]
